@@ -4,7 +4,7 @@
    Specification: spec/AccessSpec.v ([Readable] / [Writable], written from the property text).
    A store is acyclic when some rank decreases along every reference; the fuel F exceeds every rank.
    [iv s F st m] / [bv s F st m] are the current values of node m (number / boolean) in state st. *)
-From Cam Require Import Outcome Access AccessSpec P_C18 P_C18b.
+From Cam Require Import Outcome Access AccessSpec AccessAnswer P_C18 P_C18b P_C18c.
 Local Open Scope nat_scope.
 
 (* reported readable exactly when implemented, available, the imposed and register access modes
@@ -110,6 +110,72 @@ Theorem C18_variable_sources : forall s rank F st n nd m, Acyclic s rank -> (for
    is_writable fixed_cfg s F st n = Ok true -> is_readable fixed_cfg s F st m = Ok true).
 Proof. exact variable_sources. Qed.
 Print Assumptions C18_variable_sources.
+
+(* THE COMPLETE ANSWER, for every acyclic store and every state, with no hypothesis that anything
+   evaluates: the outcome of the query — Ok true, Ok false, an error of whichever class, a panic —
+   is exactly the one the fuel-free relations of spec/AccessAnswer.v assign (order of evaluation
+   included: implemented, available, [not locked], imposed mode, then the value sources / targets;
+   `seq` stops at the first answer other than Ok true, `amp` asks everything and reports the first
+   failure).  The relations are functional on acyclic stores since the model is a function. *)
+Theorem C18_readable_answer : forall s rank F st n o, Acyclic s rank -> (forall m, rank m < F) ->
+  (is_readable fixed_cfg s F st n = o <-> RAns s (bool_from_id s F st) (val s F st) n o).
+Proof. exact readable_answer. Qed.
+Print Assumptions C18_readable_answer.
+
+Theorem C18_writable_answer : forall s rank F st n o, Acyclic s rank -> (forall m, rank m < F) ->
+  (is_writable fixed_cfg s F st n = o <-> WAns s (bool_from_id s F st) (val s F st) n o).
+Proof. exact writable_answer. Qed.
+Print Assumptions C18_writable_answer.
+
+(* whatever the base conditions yield other than Ok(true) IS the answer (every configuration) *)
+Theorem C18_base_decides : forall c s rank F st n nd x, Acyclic s rank -> (forall m, rank m < F) ->
+  nth_error s n = Some nd -> x <> Ok true ->
+  (HasReadQuery (nkind nd) -> base_r_ans (bool_from_id s F st) nd = x -> is_readable c s F st n = x) /\
+  (HasGuardedWrite (nkind nd) -> base_w_ans (bool_from_id s F st) nd = x -> is_writable c s F st n = x).
+Proof. exact base_decides. Qed.
+Print Assumptions C18_base_decides.
+
+(* the first controlling node, in the order pIsImplemented, pIsAvailable, pIsLocked, that fails to
+   evaluate (x = Err e or a panic) makes the query fail with exactly x *)
+Theorem C18_first_failing_control : forall c s rank F st n nd x, Acyclic s rank -> (forall m, rank m < F) ->
+  nth_error s n = Some nd -> fails x ->
+  (forall i, p_impl nd = Some i -> bool_from_id s F st i = x ->
+     (HasReadQuery (nkind nd) -> is_readable c s F st n = x) /\
+     (HasGuardedWrite (nkind nd) -> is_writable c s F st n = x)) /\
+  (forall a, says_yes_ref s F st (p_impl nd) -> p_avail nd = Some a -> bool_from_id s F st a = x ->
+     (HasReadQuery (nkind nd) -> is_readable c s F st n = x) /\
+     (HasGuardedWrite (nkind nd) -> is_writable c s F st n = x)) /\
+  (forall l, says_yes_ref s F st (p_impl nd) -> says_yes_ref s F st (p_avail nd) ->
+     p_lock nd = Some l -> bool_from_id s F st l = x ->
+     HasGuardedWrite (nkind nd) -> is_writable c s F st n = x).
+Proof. exact first_failing_control. Qed.
+Print Assumptions C18_first_failing_control.
+
+(* a node reported writable is readable according to the access-mode table: a register exactly
+   when neither the imposed nor the register mode is WO, a feature holding its own value exactly
+   when the imposed mode is not WO (RW => both, WO => not readable) *)
+Theorem C18_writable_then_readable : forall c s rank F st n nd, Acyclic s rank -> (forall m, rank m < F) ->
+  nth_error s n = Some nd -> is_writable c s F st n = Ok true ->
+  (RegisterKind (nkind nd) ->
+     is_readable c s F st n = Ok (reads (imposed nd) && reads (regmode nd))%bool) /\
+  (nkind nd = KInteger \/ nkind nd = KFloat \/ nkind nd = KBoolean \/ nkind nd = KEnumeration \/
+   nkind nd = KString ->
+   (exists k, nvalue nd = VOne (ISlot k)) -> is_readable c s F st n = Ok (reads (imposed nd))).
+Proof. exact writable_then_readable. Qed.
+Print Assumptions C18_writable_then_readable.
+
+(* non-vacuity: a register the device refuses to read (Err 30) as pIsImplemented / pIsLocked, and a
+   dangling pIsAvailable reference (Err 32) *)
+Theorem C18_failing_control_example :
+  Acyclic err_store err_rank /\ (forall m, err_rank m < 5) /\
+  map (fun n => is_readable fixed_cfg err_store 5 err_state n) [0; 1; 2; 3]
+    = [Ok true; Err E_DEVICE; Err E_KIND; Ok true] /\
+  map (fun n => is_writable fixed_cfg err_store 5 err_state n) [0; 1; 2; 3]
+    = [Ok true; Err E_DEVICE; Err E_KIND; Err E_DEVICE] /\
+  RAns err_store (bool_from_id err_store 5 err_state) (val err_store 5 err_state) 1 (Err E_DEVICE) /\
+  WAns err_store (bool_from_id err_store 5 err_state) (val err_store 5 err_state) 3 (Err E_DEVICE).
+Proof. exact failing_control_example. Qed.
+Print Assumptions C18_failing_control_example.
 
 (* the corollaries hold for the pinned code as well (any configuration c) *)
 Theorem C18_locked_not_writable : forall c s rank F st n nd l, Acyclic s rank -> (forall m, rank m < F) ->
